@@ -1209,8 +1209,8 @@ def run(ctx):
         if h["error"]:
             ctx.tie_broken("replay-not-executable", h["error"])
         return
-    n_hist = int(os.environ.get("C12_NHIST", ctx.n(quick=12, thorough=260)))
-    n_ops = ctx.n(quick=16, thorough=18)
+    n_hist = int(os.environ.get("C12_NHIST", ctx.n(quick=9, thorough=260)))
+    n_ops = ctx.n(quick=15, thorough=18)
     jobs = []
     for name, c in load_corpus():
         jobs.append(("corpus:" + name, None, c.get("flavour", "mixed"), 0, c))
